@@ -167,6 +167,8 @@ class IterV:
 def alts_of(v):
     if isinstance(v, ChoiceV):
         for g, x in v.alts:
+            if x is None:
+                continue   # padding of unreachable slots
             for g2, y in alts_of(x):
                 yield b_and(g, g2), y
     else:
@@ -375,7 +377,13 @@ def merge2(ctx, heap, g1, a, g2, b):
     if same_val(a, b):
         return a
     if isinstance(a, ChoiceV) or isinstance(b, ChoiceV):
-        return mkchoice(list((b_and(g1, g), v) for g, v in alts_of(a)) + list((b_and(b_not(g1), g), v) for g, v in alts_of(b)))
+        r = mkchoice(list((b_and(g1, g), v) for g, v in alts_of(a)) + list((b_and(b_not(g1), g), v) for g, v in alts_of(b)))
+        if isinstance(r, ChoiceV) and len(r.alts) > 64 and all(isinstance(v, Str) for _, v in r.alts):
+            out = r.alts[-1][1]
+            for g, v in reversed(r.alts[:-1]):
+                out = s_ite(g, v, out)
+            return out
+        return r
     if a is None:
         return b
     if b is None:
@@ -383,6 +391,8 @@ def merge2(ctx, heap, g1, a, g2, b):
     if (is_c(a) or isinstance(a, z3.ExprRef)) and (is_c(b) or isinstance(b, z3.ExprRef)):
         return ite(g1, a, b)
     if isinstance(a, Str) and isinstance(b, Str):
+        if ctx.hooks.get('choice_strings') and a.is_conc() and b.is_conc():
+            return mkchoice([(g1, a), (b_not(g1), b)])
         return s_ite(g1, a, b)
     if isinstance(a, StructV) and isinstance(b, StructV) and len(a.f) == len(b.f):
         return StructV([merge2(ctx, heap, g1, x, g2, y) for x, y in zip(a.f, b.f)])
@@ -403,12 +413,27 @@ def merge2(ctx, heap, g1, a, g2, b):
         return merge_maps(ctx, heap, g1, a, b)
     if isinstance(a, IterV) and isinstance(b, IterV) and a.kind == b.kind and set(a.d) == set(b.d):
         return IterV(a.kind, **{k: merge2(ctx, heap, g1, a.d[k], g2, b.d[k]) for k in a.d})
+    if isinstance(a, dict) and isinstance(b, dict):
+        # file-system style dictionaries: path -> (present, content)
+        out = {}
+        for k in set(a) | set(b):
+            va, vb = a.get(k), b.get(k)
+            if va is None:
+                va = (False, vb[1]) if isinstance(vb, tuple) and len(vb) == 2 else vb
+            if vb is None:
+                vb = (False, va[1]) if isinstance(va, tuple) and len(va) == 2 else va
+            out[k] = merge2(ctx, heap, g1, va, g2, vb)
+        return out
     if isinstance(a, list) and isinstance(b, list):
         # ropes: share a prefix, the shorter one is padded with empty pieces
         n = max(len(a), len(b))
         k = 0
         while k < min(len(a), len(b)) and a[k] is b[k]:
             k += 1
+        if ctx.hooks.get('choice_strings') and all(isinstance(x, (Str, ChoiceV)) for x in a + b):
+            from intrinsics import rope_str
+            ra, rb = rope_str(list(a)), rope_str(list(b))
+            return [merge2(ctx, heap, g1, ra, g2, rb)]
         if all(isinstance(x, Str) for x in a[k:] + b[k:]):
             ta = a[k:] + [EMPTY] * (n - len(a))
             tb = b[k:] + [EMPTY] * (n - len(b))
@@ -643,7 +668,7 @@ class Exec:
         if key not in st.heap:
             pkg = self.prog.globals.get(name, {}).get('pkg')
             done = self.ctx.hooks.setdefault('inits_done', set())
-            if pkg in self.LAZY_INIT and pkg not in done and (pkg + '.init') in self.prog.funcs:
+            if pkg and (pkg in self.LAZY_INIT or pkg.startswith(self.prog.module)) and pkg not in done and (pkg + '.init') in self.prog.funcs:
                 done.add(pkg)
                 ctx = self.ctx
                 saved = (ctx.obligations, ctx.terminals, ctx.effects, ctx.hooks.get('lenient'), ctx.depth)
@@ -663,6 +688,9 @@ class Exec:
             init = self.ctx.globals_init.get(name)
             if init is not None:
                 st.heap[key] = init(self, st) if callable(init) else init
+            elif self.prog.globals[name]['t'] == 'error' and pkg and not pkg.startswith(self.prog.module):
+                # sentinel errors of library packages (fs.ErrNotExist, io.EOF, ...) are distinct non-nil values
+                st.heap[key] = IfaceV('error:global:' + name, s_const(name))
             else:
                 st.heap[key] = self.zero(self.prog.globals[name]['t'])
 
@@ -711,7 +739,15 @@ class Exec:
         intr = ctx.intrinsics.get(fname)
         if intr is not None:
             st = State({}, heap)
-            r = intr(self, st, guard, args, pos)
+            if ctx.hooks.get('lenient'):
+                try:
+                    r = intr(self, st, guard, args, pos)
+                except Exception:   # opaque operands during package initialisation
+                    nres = len(self.prog.types[fn['sig']]['results']) if fn is not None else 1
+                    r = None if nres == 0 else (OpaqueV('init:' + fname) if nres == 1 else tuple(OpaqueV('init:%s#%d' % (fname, i)) for i in range(nres)))
+                    return r, heap, guard
+            else:
+                r = intr(self, st, guard, args, pos)
             if isinstance(r, tuple) and len(r) == 2 and isinstance(r[0], _Ret):
                 return r[0].v, st.heap, r[1]
             return r, st.heap, guard
@@ -1285,6 +1321,12 @@ class Exec:
 
     # ---- maps
     def key_eq(self, a, b):
+        if isinstance(a, ChoiceV) or isinstance(b, ChoiceV):
+            r = False
+            for ga, va in alts_of(a):
+                for gb, vb in alts_of(b):
+                    r = b_or(r, b_and(ga, gb, self.key_eq(va, vb)))
+            return r
         if isinstance(a, Str):
             return s_eq(a, b)
         return self.equal(a, b)
@@ -1359,8 +1401,10 @@ class Exec:
             mo = st.heap[ma.obj]
             n = len(mo.entries)
             ctx = self.ctx
-            if n <= 1:
-                perm = [0] * n
+            if n <= 1 or ctx.hooks.get('fixed_map_order'):
+                # checks that are not about iteration order run one schedule (insertion order); order independence
+                # of the code they go through is decided separately (C03)
+                perm = list(range(n))
             else:
                 perm = [ctx.fresh('perm', 8) for _ in range(n)]
                 for p in perm:
